@@ -111,6 +111,30 @@ CLAIMED = {
              "correct scheme would pass.",
         technique="TLA+ spec KeyEnc.tla; TLC exhaustive evaluation on bounded strings + TLC validation of logged encoder outputs",
         design_ref="4.4, 7 (C18)"),
+    "C05": dict(
+        engine="sched",
+        text="DBImpl.tla models WriteTxn/Commit/Abort/registerTable at the granularity of their critical sections (one action per "
+             "verif gate); TLC checks Inv_C05_Serial/SeesEarlier/NoLost/RegKept, Prop_C05_Grow (and that six mutant protocols "
+             "violate them). drv_sched replays random and TLC-generated schedules on the real goroutines, parking them at "
+             "every gate, and logs a probe of the committed state after every step; SchedTrace.tla (TLC) explains every probe "
+             "as the abstract root or the root after publishing exactly one open transaction, checks that no two open "
+             "transactions share a table, that replies inside a transaction reflect every earlier commit and that "
+             "registered tables never disappear.",
+        note="TLC 1.8; goroutines are serialised by the verif hooks (one protocol step at a time), 'blocked' is the goroutine wait reason sync.Mutex.Lock read from runtime.Stack; <= 6 goroutines, 2-4 tables per configuration; schedules sampled (random bursts + one per transition of the DBImpl.tla state graph).",
+        technique="TLA+ specs DBImpl.tla (protocol) + DB.tla; TLC model checking incl. mutants, TLC-generated schedules replayed "
+                  "through blocking hooks, TLC trace validation (SchedTrace.tla)",
+        design_ref="4.7, 5.3, 7 (C05)"),
+    "C10": dict(
+        engine="sched",
+        text="DBImpl.tla: TLC deadlock check (no state constraint) for table sets given unsorted and with duplicates, liveness "
+             "<>AllDone under weak fairness, Inv_C10_Independent; the unsorted-lock mutant deadlocks. drv_sched: every goroutine "
+             "that does not reach its next gate is classified from its wait reason; SchedTrace.tla rejects a goroutine blocked "
+             "on a table lock while no other transaction shares a table with it, blocked on the root mutex while nobody is "
+             "inside the root section, a probe (reader) that does not complete at any gate, and a schedule whose actors cannot "
+             "all finish.",
+        note="TLC 1.8; goroutines are serialised by the verif hooks (one protocol step at a time), 'blocked' is the goroutine wait reason sync.Mutex.Lock read from runtime.Stack; <= 6 goroutines, 2-4 tables per configuration; schedules sampled (random bursts + one per transition of the DBImpl.tla state graph).",
+        technique="TLA+ spec DBImpl.tla (deadlock + liveness by TLC); schedule replay through blocking hooks; TLC trace validation",
+        design_ref="4.7, 5.3, 7 (C10)"),
 }
 
 ALL = [f"C{i:02d}" for i in range(1, 21)]
@@ -159,6 +183,9 @@ def main():
              "serves_properties": ["C17"], "kind_free_text": "script interpreter for part.Map/Set + TLA+ trace specification"},
             {"name": "enc", "path": "harness/drv_enc.go + spec/KeyEnc.tla + spec/trace/EncTrace.tla",
              "serves_properties": ["C18"], "kind_free_text": "encoder output tables validated by TLC against KeyEnc.tla"},
+            {"name": "sched", "path": "harness/drv_sched.go + spec/DBImpl.tla + spec/gen/GenDBImpl.tla + spec/trace/SchedTrace.tla",
+             "serves_properties": ["C02", "C05", "C06", "C08", "C10", "C19"],
+             "kind_free_text": "deterministic goroutine scheduler on the verif hooks + probes after every protocol step, validated by TLC"},
         ],
         "checks": checks,
         "not_applicable": na,
